@@ -247,16 +247,17 @@ Proof. intros jit fs. unfold post_with_retry, single. destruct (hd dflt_outcome 
 Lemma exchange_once_plus_413 : forall st fs ext_ok,
   (xsends (exchange st fs ext_ok) <= 2)%nat /\
   (xsends (exchange st fs ext_ok) = 2%nat ->
-     st = true /\ ext_ok = true /\ exists h, nth 0 fs dflt_outcome = OResp 413 h) /\
-  (st = true -> (1 <= xsends (exchange st fs ext_ok))%nat).
+     st = SLive /\ ext_ok = true /\ exists h, nth 0 fs dflt_outcome = OResp 413 h) /\
+  (st = SLive -> (1 <= xsends (exchange st fs ext_ok))%nat) /\
+  (st <> SLive -> xsends (exchange st fs ext_ok) = 0%nat).
 Proof.
   intros st fs ext_ok. unfold exchange. rewrite nth_hd.
-  destruct st; simpl; [|repeat split; try lia; discriminate].
+  destruct st; simpl; try (repeat split; try lia; try discriminate; congruence).
   destruct (hd dflt_outcome fs) as [| | | | |s h]; simpl;
-    try (repeat split; try lia; discriminate).
-  destruct (N.eqb_spec s 413) as [->|Hs]; simpl; [|repeat split; try lia; discriminate].
-  destruct ext_ok; simpl; [|repeat split; try lia; discriminate].
-  destruct (hd dflt_outcome (tl fs)); simpl; repeat split; try lia; eauto.
+    try (repeat split; try lia; try discriminate; congruence).
+  destruct (N.eqb_spec s 413) as [->|Hs]; simpl; [|repeat split; try lia; try discriminate; congruence].
+  destruct ext_ok; simpl; [|repeat split; try lia; try discriminate; congruence].
+  destruct (hd dflt_outcome (tl fs)); simpl; repeat split; try lia; try congruence; eauto.
 Qed.
 
 (* the resend is the last request whatever it answers (a second 413 included) *)
